@@ -69,8 +69,9 @@ _stale_gofacts()
 def cases_n(tier):
     # vlib starts one coqc per shard, all at once: keep the number of shards near the number of cores in both tiers
     global SHARD
-    SHARD = 40 if tier == "quick" else 400
-    return 320 if tier == "quick" else 10000
+    # every bridge-addressed frame carries its raw calldata (about 2.4 kB): shards stay small so that a coqc process stays below ~1.5 GB
+    SHARD = 40 if tier == "quick" else 120
+    return 320 if tier == "quick" else 4000
 
 
 class Pool:
